@@ -134,6 +134,10 @@ def theorems_of(prop_id):
     """Names (fully qualified) of the theorems declared in Props/<id>.lean."""
     path = os.path.join(LEAN, "RlboxModel", "Props", prop_id + ".lean")
     code = strip_lean_comments(open(path).read())
+    core_path = os.path.join(LEAN, "RlboxModel", "Props", prop_id + "Core.lean")
+    if os.path.exists(core_path) and re.search(r"^import RlboxModel\.Props\." + prop_id + r"Core\s*$", code, flags=re.M):
+        # a property's theorems may be split: <ID>Core.lean (independent of the regenerated facts) + <ID>.lean
+        code = strip_lean_comments(open(core_path).read()) + "\n" + code
     ns = []
     names = []
     examples = 0
